@@ -57,9 +57,45 @@ fn laws(st: &mut Stats, a: &DataType, tn: &str, b: &DataType, vs: &[Value], k: u
     
 }
 
+/// number of elements at every level of a value: a conversion never changes it
+fn shape_of(v: &Value) -> String {
+    match v { Value::List(l) => format!("l{}[{}]", l.len(), l.iter().map(shape_of).collect::<Vec<_>>().join(",")), Value::Optional(o) => match o.as_deref() { Some(x) => format!("s({})", shape_of(x)), None => "n".into() },
+        Value::Struct(s) => format!("{{{}}}", s.iter().map(|(n, x)| format!("{}:{}", n, shape_of(x))).collect::<Vec<_>>().join(",")), _ => "_".into() }
+}
+/// conversions that are not total (list(float) into list(int), optional floats into optional ints, structs of them): the
+/// injection built for the pair converts a value exactly or refuses it; it never drops or rounds an element
+fn partial_laws(st: &mut Stats, rng: &mut Rng, thorough: bool) {
+    let fl = |xs: &[f64]| -> Vec<Value> { xs.iter().map(|x| Value::float(*x)).collect() };
+    let lists: Vec<Vec<f64>> = vec![vec![1.0, 2.5, 3.0], vec![1.0, 3.0], vec![2.5], vec![], vec![0.5, 0.25], vec![4.0, 4.0, 7.0], vec![1e19, 2.0], vec![2.0], vec![-0.0, 1.0], vec![1.0, 2.0, 3.0]];
+    let pairs: Vec<(DataType, DataType, Vec<Value>)> = vec![
+        (DataType::list(DataType::float(), 0, 10), DataType::list(DataType::integer(), 0, 10), lists.iter().map(|l| Value::list(fl(l))).collect()),
+        (DataType::list(DataType::float_interval(0.0, 10.0), 0, 10), DataType::list(DataType::integer_interval(0, 3), 0, 10), lists.iter().map(|l| Value::list(fl(l))).collect()),
+        (DataType::optional(DataType::float()), DataType::optional(DataType::integer()), vec![Value::some(Value::float(2.5)), Value::some(Value::float(2.0)), Value::none(), Value::some(Value::float(3.0))]),
+        (DataType::list(DataType::optional(DataType::float()), 0, 10), DataType::list(DataType::optional(DataType::integer()), 0, 10),
+            vec![Value::list(vec![Value::some(Value::float(1.0)), Value::some(Value::float(2.5))]), Value::list(vec![Value::some(Value::float(1.0))]), Value::list(vec![Value::some(Value::float(1.0)), Value::none()])]),
+        (DataType::structured([("x", DataType::float()), ("y", DataType::list(DataType::float(), 0, 5))]), DataType::structured([("x", DataType::integer()), ("y", DataType::list(DataType::integer(), 0, 5))]),
+            vec![Value::structured([("x", Value::float(1.0)), ("y", Value::list(fl(&[1.0, 2.5])))]), Value::structured([("x", Value::float(1.0)), ("y", Value::list(fl(&[1.0])))]), Value::structured([("x", Value::float(1.5)), ("y", Value::list(fl(&[1.0])))])]),
+        (DataType::list(DataType::text(), 0, 5), DataType::list(DataType::integer(), 0, 5), vec![Value::list(vec![Value::text("1"), Value::text("x"), Value::text("3")]), Value::list(vec![Value::text("1"), Value::text("3")])]),
+    ];
+    let _ = (rng, thorough);
+    for (a, b, vs) in pairs.iter() {
+        let res = catch_unwind(AssertUnwindSafe(|| { let inj = a.inject_into(b).ok()?; Some(vs.iter().map(|v| inj.value(v).ok()).collect::<Vec<Option<Value>>>()) }));
+        st.evaluations += 1; st.distinct.insert(hash_str(&format!("partial{}{}", a, b))); st.bump("partial_conversion_pairs");
+        let Ok(Some(ws)) = res else { st.bump("partial_conversion_not_built"); continue };
+        for (v, w) in vs.iter().zip(ws.iter()) { if let Some(w) = w {
+            st.bump("partial_conversion_accepted_values");
+            if shape_of(v) != shape_of(w) { st.violation(json!({"kind":"conversion-changes-the-shape-of-the-value","source_type":a.to_string(),"target_type":b.to_string(),"value":v.to_string(),"converted":w.to_string()})); }
+            if !crate::typegen::member(b, w) && !b.contains(w) { st.violation(json!({"kind":"converted-value-outside-target-type","class":"partial-conversion","source_type":a.to_string(),"target_type":b.to_string(),"value":v.to_string(),"converted":w.to_string()})); }
+        } }
+        for i in 0..vs.len() { for j in (i + 1)..vs.len() { if let (Some(wi), Some(wj)) = (&ws[i], &ws[j]) { if vs[i] != vs[j] && wi == wj && !(vs[i].to_string().contains("-0") || vs[j].to_string().contains("-0")) {
+            st.violation(json!({"kind":"conversion-not-injective","class":"partial-conversion","source_type":a.to_string(),"target":b.to_string(),"values":[vs[i].to_string(), vs[j].to_string()],"converted":wi.to_string()})); } } } }
+    }
+}
+
 pub fn run(outdir: &str, seed: u64, thorough: bool) -> serde_json::Value {
     let mut rng = Rng::new(seed ^ 0xC12);
     let mut st = Stats::default();
+    partial_laws(&mut st, &mut rng.fork(), thorough);
     // ---- correspondence: Integer -> Float value ----
     let n = if thorough { 40000 } else { 1500 };
     let mut c_i2f = vec![]; let mut j_i2f = vec![];
